@@ -930,7 +930,7 @@ func (e *SpecEnv) evalCall(x *ECall) SV {
 				return SV{t: app("select", fc.comp(e.cur, k, s), sarr(v.t)), typ: types.NewArray(types.Typ[types.Uint8], 0)}
 			case "int", "uint64", "uint32", "uint16", "uint8", "byte", "int64", "int32", "uint", "mathint":
 				return SV{t: e.eval(x.Args[0]).t, typ: mathInt}
-			case "blen", "sub", "strseq", "bytestr":
+			case "blen", "sub", "strseq", "bytestr", "stralgebra", "noaxioms":
 				// T-BYTES algebra (ext_bytesalgebra.go); a spec function of the same name takes precedence
 				if e.lookupSpecFn(id.Name) == nil {
 					if v, ok := e.evalAlgebraBuiltin(id.Name, x.Args); ok {
@@ -1100,7 +1100,15 @@ func (e *SpecEnv) applySpecFn(sf *SpecFn, argExprs []Expr) SV {
 		if len(sf.Reads) > 0 {
 			// `reads` clause: the listed heap components (of the state the call is evaluated in) are extra arguments
 			rs, rt := e.readsArgs(sf, &n)
-			e.readsFrame("sf_"+mangle(sf.Pkg+"_"+sf.Name), e.fc.tc.sortOf(ret), rs, rt, func(ent *SpecEnv) []string { _, t0 := ent.readsArgs(sf, &n); return t0 }, sorts, args, ts)
+			e.readsFrameArgs("sf_"+mangle(sf.Pkg+"_"+sf.Name), e.fc.tc.sortOf(ret), rs, rt, func(ent *SpecEnv) []string { _, t0 := ent.readsArgs(sf, &n); return t0 }, sorts, args,
+				func(env *SpecEnv) []string { // the actual arguments as rendered in state env.cur (slices: block content, offset, length)
+					var out []string
+					for i, a := range args {
+						_, tt := env.uninterpArg(a, n.resolveType(sf.Params[i].Type))
+						out = append(out, tt...)
+					}
+					return out
+				})
 			sorts, ts = append(rs, sorts...), append(rt, ts...)
 		}
 		name := "sf_" + mangle(sf.Pkg+"_"+sf.Name)
